@@ -12,7 +12,18 @@ def main():
     ap.add_argument("--replay", default=None)
     a = ap.parse_args()
     seed = int(os.environ.get("VERIF_SEED", "0") or 0)
-    sys.exit(core.main_check(a.pid.upper(), a.tier, seed, a.replay))
+    try:
+        rc = core.main_check(a.pid.upper(), a.tier, seed, a.replay)
+    except Exception as e:  # noqa: BLE001
+        # the machinery itself failed: the property is not shown to hold on this tree -> say so in the agreed format
+        import traceback
+        pid = a.pid.upper()
+        path = core.write_replay(pid, "harness-crash", {"case": None},
+                                 {"obligation": f"harness/props/{pid.lower()}.py + harness/core.py ran to completion",
+                                  "fatal": f"{e!r}\n{traceback.format_exc()}"})
+        print(f"VIOLATION property={pid} replay={path} no-failing-input-found")
+        rc = 1
+    sys.exit(rc)
 
 
 if __name__ == "__main__":
